@@ -99,6 +99,10 @@ def grid_oracle(chk, grids, info):
                     for (a, b), xp in (((0, 0), r["xPointsAtStart"][ri]), ((-1, 0), r["xPointsAtStart"][ri + 1]), ((0, -1), r["xPointsAtEnd"][ri]), ((-1, -1), r["xPointsAtEnd"][ri + 1])):
                         if xp is not None:
                             ok[a, b] = False
+                            # the exemption is for corners AT an X-point of the flux surface of that radial index: the X-point must be on it
+                            if abs(ev[a, b] - want[a, 0]) > 1e-6 * scale:
+                                chk.fail("pinned-corner:xpoint-not-on-this-surface", "a corner is pinned to an X-point that does not lie on the flux surface of the corner's radial index",
+                                         {"grid": g.name, "region": r["name"], "corner": [a, b], "psi_at_xpoint": float(ev[a, b]), "psi_of_radial_index": float(want[a, 0]), "xpoint": list(xp)})
                             if abs(A["Rxy"]["corners"][a, b] - xp[0]) > 0 or abs(A["Zxy"]["corners"][a, b] - xp[1]) > 0:
                                 chk.fail("pinned-corner", "a corner that should be pinned to the X-point is not at the X-point", {"grid": g.name, "region": r["name"], "corner": [a, b]})
                 n += int(ok.sum())
@@ -304,6 +308,38 @@ def refine_correspondence(chk, n):
     return agree
 
 
+def pin_oracle(chk):
+    """every X-point a region pins the corners of a radial boundary to must lie on the flux surface of that boundary -- checked on real
+    equilibria of every topology (no mesh needed, so it also speaks when a wrong pin makes the mesh refuse to generate)"""
+    from corpus import tok, SN, DN, CDN
+    cfgs = [tok("pins_lsn", "lsn", SN), tok("pins_usn", "usn", SN), tok("pins_cdn", "cdn", CDN), tok("pins_udn", "udn", DN), tok("pins_ldn", "ldn", DN),
+            tok("pins_udn2", "udn2", DN), tok("pins_udn_neg", "udn", DN, sign=-1.0), tok("pins_ldn_neg", "ldn", DN, sign=-1.0), tok("pins_udn_m", "udn_m", DN, mirror=True)]
+    rc, res, o, e = common.run_impl_json("impl/pins.py", dict(cfgs=cfgs), timeout=600)
+    if res is None:
+        chk.tie_broken("impl/pins.py", f"implementation run failed rc={rc}: {(o + e)[-1000:]}")
+        return 0
+    n, seen = 0, {}
+    for eqd in res:
+        if "error" in eqd:
+            chk.tie_broken(f"pins:{eqd['name']}", f"equilibrium no longer constructs: {eqd['error']}")
+            continue
+        npins = 0
+        for r in eqd["regions"]:
+            for end in ("start", "end"):
+                for k, p in enumerate(r[end]):
+                    if p is None:
+                        continue
+                    n += 1
+                    npins += 1
+                    if k >= len(r["boundaries"]) or abs(p["psi"] - r["boundaries"][k]) > 1e-6 * r["scale"]:
+                        chk.fail("pinned-corner:xpoint-not-on-this-surface", "a region pins the corners of a radial boundary to an X-point that does not lie on the flux surface of that boundary",
+                                 {"equilibrium": eqd["name"], "double_null_type": eqd["double_null_type"], "region": r["name"], "end": end, "radial_boundary": k,
+                                  "psi_at_xpoint": p["psi"], "psi_of_boundary": r["boundaries"][k] if k < len(r["boundaries"]) else None, "xpoint": [p["R"], p["Z"]]})
+        seen[eqd["name"]] = npins
+    chk.notes["pin_oracle"] = seen
+    return n
+
+
 def run(chk):
     info = translate(chk)
     chk.trust("translate/slices.py (literal slices of fillRZ, X-point pins, reverse/transpose/refine skeleton of MeshRegion.__init__ as source fingerprints)",
@@ -333,6 +369,7 @@ def run(chk):
         if rcq != 0 or not m or m.group(1) != m.group(2):
             chk.tie_broken("model:follow", f"the executable model does not return psivals order on the generated cases: {(oq + eq)[-500:]}")
     nr = refine_correspondence(chk, 400 if chk.tier == "quick" else 3000)
+    nr += pin_oracle(chk)
     grids = corpus.get(tier=chk.tier)
     n = grid_oracle(chk, grids, info)
     chk.count(evaluations=len(cases) + n + nr, distinct=nf + n + nr)
